@@ -328,6 +328,19 @@ def run_multi_signature_cell(cell) -> tuple:
     sig_bad = rjws.make_json_signature(json.dumps({"alg": name}).encode(), None, payload, real, k["ref"]["oct64"])
     tok = {"payload": rb.encode(payload), "signatures": [sig_good, sig_bad] if order == "bad-last" else [sig_bad, sig_good]}
     kw = {} if style == "default" else {"algorithms": L} if style == "algorithms" else {"registry": jws.JWSRegistry(algorithms=L)}
+    if cell.get("accept"):
+        # both algorithms are allowed (in an order other than that of the list, or one name twice): producing and consuming succeed
+        a1, a2 = cell["accept"]
+        mod = rfc7797 if entry == "rfc7797-general-two" else jws
+        try:
+            sigs = [rjws.make_json_signature(json.dumps({"alg": a}).encode(), None, payload, a, k["ref"]["oct64"]) for a in (a1, a2)]
+            mod.deserialize_json({"payload": rb.encode(payload), "signatures": sigs}, k["obj"]["oct64"], **kw)
+            made = jws.serialize_json([{"protected": {"alg": a1}}, {"protected": {"alg": a2}}], payload, k["obj"]["oct64"], **kw)
+            mod.deserialize_json(made, k["obj"]["oct64"], **kw)
+            return "must-accept", None
+        except Exception as e:
+            return "must-accept", (f"C05:allowed-algorithm-refused:jws:general-two-signatures:{type(e).__name__}",
+                                   f"signatures under {a1} and {a2}, allowed are {L!r}: {type(e).__name__}: {e}", cell)
     try:
         (rfc7797 if entry == "rfc7797-general-two" else jws).deserialize_json(tok, k["obj"]["oct64"], **kw)
         return "must-reject", ("C05:disallowed-algorithm-used:jws:verify:general-two-signatures",
@@ -367,6 +380,12 @@ def matrix(part):
                 for style in (["default"] if L is None else ["algorithms", "registry"]):
                     for entry in ("general-two", "rfc7797-general-two"):
                         yield {"kind": "jws-multi", "op": "verify", "entry": entry, "names": {"alg": name}, "style": style, "L": L, "shape": "two-signatures", "order": order}
+        for L, pair in [(["HS256", "HS512"], ("HS512", "HS256")), (["HS256", "HS512"], ("HS256", "HS256")), (["HS384", "HS256", "HS512"], ("HS512", "HS384")),
+                        (["HS512"], ("HS512", "HS512")), (None, ("HS256", "HS256"))]:
+            for style in (["default"] if L is None else ["algorithms", "registry"]):
+                for entry in ("general-two", "rfc7797-general-two"):
+                    yield {"kind": "jws-multi", "op": "verify", "entry": entry, "names": {"alg": pair[0]}, "style": style, "L": L, "shape": "two-signatures-allowed", "order": "-",
+                           "accept": list(pair)}
     else:
         base = {"alg": "A128KW", "enc": "A128GCM", "zip": None}
         universe = jweplan.ALL_NAMES
